@@ -2,4 +2,4 @@ From Coq Require Extraction ExtrOcamlBasic.
 From Common Require Import Words.
 From Xml Require Import Gen_Xml XmlSpec XmlModel.
 Extraction Language OCaml.
-Extraction "model.ml" anchor parse parse_with parse_obj static_parse new_parser toString roundtrip escape unescape wf_tree erase inside_textb vstep sget target mstep vinit vabs std_entity std_entities load_with load_target static_load save_file hstep hinit touch_op.
+Extraction "model.ml" anchor parse parse_with parse_obj static_parse new_parser toString roundtrip escape unescape wf_tree erase inside_textb vstep sget target mstep vinit vabs std_entity std_entities load_with load_target static_load save_file hstep hinit touch_op squash cur_name.
